@@ -43,6 +43,35 @@ fn main() {
 			missing.push(name.to_string());
 			continue;
 		}
+		// (7) builds with a wider PeriodType (run as a sub-check of C20): one parameter at a time beyond
+		// the capacity of u8, long steady streams (constant, ramps, zigzags) with at most one deviation
+		if std::env::var("VERIF_WIDE").is_ok() && (PeriodType::MAX as u64) > 255 {
+			let mut cfgs = vec![];
+			for (key, val) in ind::json_map(&c.to_json().unwrap()) {
+				let texts: Vec<String> = if val.is_u64() {
+					vec!["300".into(), "511".into()]
+				} else if let Some(o) = val.as_object() {
+					let kind = o.keys().next().unwrap().clone();
+					let kind = if kind == "lin_reg" { "linreg".to_string() } else { kind };
+					vec![format!("{kind}-300")]
+				} else {
+					vec![]
+				};
+				for t in texts {
+					let mut x = c.boxed_clone();
+					if x.set(&key, t).is_ok() && x.validate() {
+						cfgs.push(x);
+					}
+				}
+			}
+			if !cfgs.is_empty() {
+				let hi = yata::core::Candle { open: ks[1].open + 3000.0, high: ks[1].high + 3000.0, low: ks[1].low + 3000.0, close: ks[1].close + 3000.0, volume: ks[1].volume };
+				let sys = IndSys::new(&format!("{name}/deviation/wide-periods"), cfgs, vec![ks[1], hi], vec![ks[1], ks[2]], oracle, true).with_zigzag();
+				h.go(&sys, &Limits::deviation(0, 1300).wall_secs(600), true);
+				tally!(sys);
+			}
+			continue;
+		}
 		// (1) default + small-period configuration: every candle sequence to a depth
 		let base = indicator_configs(Some(name), false);
 		let sys = IndSys::new(&format!("{name}/depth/default+small"), base, ks[..2].to_vec(), ks.clone(), oracle, false);
